@@ -49,7 +49,8 @@ def render(tt):
 
 ALPHABET = ['x', 'unsafe', 'true', 'false', '1', '-1', '1.5', '""', '"x"', "'c'", '=', ',', '::', '*', '-', "'a", '<', '>',
             ['(', [], ')'], ['[', [], ']'], ['{', [], '}'], 'name', 'Debug',
-            '9223372036854775807', '9223372036854775808', '"-9223372036854775807"', '"-9223372036854775808"']
+            '9223372036854775807', '9223372036854775808', '"-9223372036854775807"', '"-9223372036854775808"',
+            '"a b"', '"1x"', '"a-b"', '"r#x"', '"T: "']
 
 
 def mutations(tt, alphabet):
@@ -121,6 +122,10 @@ def seeds():
             else:
                 tt2 = tt
             add('%s/%s' % (tag, args), tpl.replace('{T}', tt2), args)
+    for tag, tpl in (('f', fld), ('nf', nfld)):
+        add('%s/name-list' % tag, tpl.replace('{T}', 'Debug' if tag == 'f' else 'Debug, Default'), 'Debug(name(k), method("fmt_m"))')
+        add('%s/rename-str' % tag, tpl.replace('{T}', 'Debug' if tag == 'f' else 'Debug, Default'), 'Debug(rename("k"))')
+    add('v/Debug-list', var.replace('{T}', 'Debug') if False else '#[derive(Educe)]\n#[educe(Debug)]\nenum Ty {{ #[educe({A})] A(u8, u16), B {{ x: u8 }} }}\n', 'Debug(name("Vv"), named_field(true))')
     add('f/Deref', '#[derive(Educe)]\n#[educe(Deref, DerefMut)]\nstruct Ty {{ #[educe({A})] a: u8, b: u16 }}\n', 'Deref, DerefMut')
     add('vf/Into', '#[derive(Educe)]\n#[educe(Into(u8), Into(u16))]\nenum Ty {{ A(#[educe({A})] u8, u16), B {{ x: u8 }} }}\n', 'Into(u8), Into(u16, method(m))')
     var = '#[derive(Educe)]\n#[educe({T})]\nenum Ty {{ #[educe({A})] A(u8, u16), B {{ x: u8 }} }}\n'
@@ -167,6 +172,20 @@ def cases_for(tier):
             if text not in seen:
                 seen.add(text)
                 out.append(Case('C17|form|%s|%s' % (hk, f), text, {'host': hk, 'form': f}, expect='any', run=False, depth=1))
+    # generic parameters named like the fresh names the templates pick (a retry loop that does not advance would hang)
+    for base in ('__H', 'H', '__T', 'Educe__DebugField', 'Educe__RawString'):
+        names = [base, base + '_', base + '__', base + '___']
+        for k in (1, 2, 3, 4):
+            for role in ('type', 'const', 'mixed'):
+                ps = []
+                for i, nme in enumerate(names[:k]):
+                    ps.append(('const %s: usize' % nme) if (role == 'const' or (role == 'mixed' and i % 2)) else nme)
+                uses = ', '.join(('[u8; %s]' % nme) if p.startswith('const') else nme for p, nme in zip(ps, names[:k]))
+                for kind, body in (('struct', 'struct Ty<%s>(%s);' % (', '.join(ps), uses)), ('enum', 'enum Ty<%s> { A(%s), B }' % (', '.join(ps), uses))):
+                    text = '#[derive(Educe)]\n#[educe(Hash, Debug, Clone, PartialEq)]\n%s\n' % body
+                    if text not in seen:
+                        seen.add(text)
+                        out.append(Case('C17|fresh|%s|%d|%s|%s' % (base, k, role, kind), text, {'generic_parameters': names[:k], 'role': role}, expect='any', run=False, depth=1))
     depths = [1, 2, 3, 8, 32, 64, 128, 256] + ([512, 1024, 2048] if tier != 'quick' else [])
     for d in depths:
         for nk, mk in (('paren', lambda d: 'Debug' + '(' * d + ')' * d), ('p-chain', lambda d: 'Debug(' + 'name(' * d + 'x' + ')' * d + ')'), ('bound', lambda d: 'Debug(bound' + '(' * d + 'u8: Copy' + ')' * d + ')'),
@@ -210,7 +229,12 @@ def double_mutations(tier):
 def check(v, tier):
     cases = cases_for(tier)
     guard(len({c.key for c in cases}) == len(cases), 'duplicate keys')
-    res = rt_run(cases, run=False, name='C17', shard_size=400, compile_timeout=240, single_round=True, extra_prelude='pub fn m() {}\n')
+    # inputs that aim at retry loops are compiled one per compiler process under a short cap, so that a hang costs one cap, not a bisection
+    solo = [c for c in cases if c.key.startswith('C17|fresh|')]
+    rest = [c for c in cases if not c.key.startswith('C17|fresh|')]
+    res = rt_run(rest, run=False, name='C17', shard_size=400, compile_timeout=90, single_round=True, extra_prelude='pub fn m() {}\n')
+    res += rt_run(solo, run=False, name='C17s', shard_size=1, compile_timeout=30, single_round=True, extra_prelude='pub fn m() {}\n')
+    cases = rest + solo
     v.add_states(cases)
     outcomes = {}
     for r in res:
@@ -248,7 +272,7 @@ def check(v, tier):
     guard(outcomes.get('educe_diag', 0) > 1000, 'too few inputs were refused with a diagnostic')
     guard(outcomes.get('out_of_domain', 0) == 0, 'some inputs were rejected by the compiler\'s own parser before any macro ran')
     return v.finish('seeds: every documented attribute form at type / variant / field / union-field level on a matching shape; every single token-tree mutation of the argument list at every '
-                    'nesting level: delete, duplicate, swap adjacent, replace by / insert each element of a 27-token alphabet (identifiers, unsafe, booleans, numbers incl. the isize boundaries, strings, char, = , :: * - '
+                    'nesting level: delete, duplicate, swap adjacent, replace by / insert each element of a 32-token alphabet (identifiers, unsafe, booleans, numbers incl. the isize boundaries, strings, char, = , :: * - '
                     'lifetime < > and empty groups in each delimiter), re-delimit or unwrap every group; attribute forms (#[educe], #[educe = lit], empty and malformed lists, raw identifiers, '
                     'out-of-range numbers) at six host positions; nesting depths 1..256 (thorough ..2048) of ten recursive constructs, types with up to 256 fields / variants; all through '
                     'the real macro inside rustc (one expansion round; a sentinel request at the end of every shard proves expansion reached it); thorough: pairs of mutations in-process, every '
